@@ -2,7 +2,7 @@
    empty inputs and inputs shorter than the parameter) and all parameters in each helper's domain. *)
 From Coq Require Import List ZArith Bool Lia.
 Import ListNotations.
-From Verif Require Import Base.Num Base.Stream Base.StreamProofs Base.GenPrelude Gen.All.
+From Verif Require Import Base.Num Base.Stream Base.StreamProofs Base.GenPrelude Base.HelperModels Gen.All.
 
 
 
@@ -186,3 +186,49 @@ Proof.
   apply (since_law_from (sem e env) [] true nzero nzero); [reflexivity | discriminate].
 Qed.
 End Since.
+
+
+(* the regenerated definitions denote exactly the hand-written slice models (a change of a Go helper that alters its
+   meaning breaks the equation) *)
+Section Slice.
+Context {I T : Type} {N : Num T}.
+Theorem generated_helpers_are_the_slice_models (e e' : expr I T) (k : Z) (x : T) env :
+  sem (helper_Change e k) env = s_change k (sem e env) /\
+  sem (helper_ChangeRatio e k) env = s_change_ratio k (sem e env) /\
+  sem (helper_ChangePercent e k) env = s_change_percent k (sem e env) /\
+  sem (helper_Abs e) env = map nabs (sem e env) /\
+  sem (helper_Add e e') env = s_op2 nadd (sem e env) (sem e' env) /\
+  sem (helper_Subtract e e') env = s_op2 nsub (sem e env) (sem e' env) /\
+  sem (helper_Multiply e e') env = s_op2 nmul (sem e env) (sem e' env) /\
+  sem (helper_Divide e e') env = s_op2 ndiv (sem e env) (sem e' env) /\
+  sem (helper_MultiplyBy e x) env = map (fun n => nmul n x) (sem e env) /\
+  sem (helper_DivideBy e x) env = map (fun n => ndiv n x) (sem e env) /\
+  sem (helper_IncrementBy e x) env = map (fun n => nadd n x) (sem e env) /\
+  sem (helper_DecrementBy e x) env = map (fun n => nsub n x) (sem e env) /\
+  sem (helper_Pow e x) env = map (fun n => npow n x) (sem e env) /\
+  sem (helper_Sqrt e) env = map nsqrt (sem e env) /\
+  sem (helper_Sign e) env = s_sign (sem e env) /\
+  sem (helper_KeepPositives e) env = s_keep_positives (sem e env) /\
+  sem (helper_KeepNegatives e) env = s_keep_negatives (sem e env) /\
+  sem (helper_RoundDigits e k) env = s_round_digits k (sem e env).
+Proof. repeat split; reflexivity. Qed.
+
+Lemma since_generated_from (l : list T) (first : bool) (last count : T) (st : option (T * T)) :
+  (first = true /\ st = None) \/ (first = false /\ st = Some (last, count)) ->
+  s_mapst (fun '(first, last, count) n =>
+             if orb first (nneb last n) then ((false, n, nofZ 0), nofZ 0)
+             else ((first, last, nadd count (nofZ 1)), nadd count (nofZ 1))) (first, last, count) l
+  = s_mapst (since_step neqb) st l.
+Proof.
+  revert first last count st. induction l as [|x l IH]; intros first last count st Hrel; [reflexivity|].
+  cbn [s_mapst]. destruct Hrel as [[-> ->] | [-> ->]]; cbn [orb since_step].
+  - f_equal. apply IH. right. split; reflexivity.
+  - unfold nneb. destruct (neqb last x); cbn [negb]; f_equal; apply IH; right; split; reflexivity.
+Qed.
+
+Theorem since_generated_is_slice_model (e : expr I T) env :
+  sem (helper_Since e) env = s_since neqb (sem e env).
+Proof.
+  unfold helper_Since, s_since. cbv zeta. cbn [sem]. apply since_generated_from. left. split; reflexivity.
+Qed.
+End Slice.
